@@ -112,6 +112,11 @@ def check(ctx):
                   if gsa.needs(AA, e, r'\b%s\b' % tconst)]
             r1.check(bool(st), '%s.%s -> .%s' % (tconst, part, attr), rel, st[0].line if st else aa.lineno, 'tag %s %s is not stored into node.%s (stores: %s)' % (
                 tconst, part, attr, gsa.find(AA, 'store', r'^%s\.%s$' % (nd, attr))))
+            other = 'description' if part == 'value' else 'value'
+            r1.check(bool(st) and any(gsa.allowed(AA, e, [(r'%s\)\.%s$|%s\]\.%s$' % (tconst, other, tconst, other), False), (r'%s\)\.%s$|%s\]\.%s$' % (tconst, part, tconst, part), True),
+                                                          (r' is None$', False)]) for e in st),
+                     '%s.%s stored whether or not the tag has a %s' % (tconst, part, other), rel, st[0].line if st else aa.lineno,
+                     'the %s of a %s tag is stored only when the tag also has a %s: e.g. "Deprecated: use foo() instead" (no version) loses its text and the deprecated flag' % (part, tconst, other))
             if key.startswith('doc-'):
                 okw = key in tag_elems and tag_elems[key].data is not None and (tag_elems[key].data.endswith('.%s' % attr) or ("'%s'" % attr) in tag_elems[key].data)
             else:
@@ -258,3 +263,17 @@ def check(ctx):
                 any(re.search(r'^%s\.%s( is None)?$' % (o, attr), a_) for a_ in gsa.atoms(e.cond))
             r3.check(okg, '%s: inferred %s only when not annotated' % (fname, attr), rel, e.line,
                      '%s stores %s when %s: an explicit (%s) annotation is overwritten by the name heuristic' % (fname, e.target, e.when()[:300], attr.replace('_', '-')), detail=e.when()[:300])
+
+    # ------------------------------------------------------------------ R4 multi-line annotations (shared with C10.R3)
+    from . import c10
+    rx_ = ctx.rule('R4', 'annotations continued on a following line extend (never replace) those already parsed', floor=4)
+    c10.continuation_rule(ctx, rx_)
+
+    # callable-level annotations apply to every callable kind (functions, methods, virtual methods, callbacks)
+    AC = gsa.summarise(ctx, MT, 'MainTransformer._apply_annotations_callable', opaque=('_apply_annotations_annotated', '_apply_annotations_params', '_apply_annotations_return', '_apply_annotation_rename_to'))
+    acn = re.escape(AC.P(1))
+    for c_, attr in (('ANN_FINISH_FUNC', 'finish_func'), ('ANN_SYNC_FUNC', 'sync_func'), ('ANN_ASYNC_FUNC', 'async_func')):
+        st_ = [e for e in gsa.find(AC, 'store', r'^%s\.%s$' % (acn, attr)) if gsa.needs(AC, e, r'\b%s\b' % c_)]
+        okk = bool(st_) and any(gsa.allowed(AC, e, [(r'^isinstance\(%s, ast\.Callable\)$' % acn, True), (r'^isinstance\(%s, ast\.\w+\)$' % acn, False), (r'\b%s\b' % c_, 'P')]) for e in st_)
+        r1.check(okk, '(%s) applies to every callable, not only to functions' % ann_consts[c_], rel, st_[0].line if st_ else AC.func.lineno,
+                 '(%s) is stored only when %s: the annotation is ignored on virtual methods / callbacks' % (ann_consts[c_], [e.when()[:160] for e in st_]))
